@@ -1347,9 +1347,10 @@ class Sampler():
         fstream = h5py.File(Path(filepath), 'r+')
         group = fstream['sampler']
 
-        for key in ['n_like', 'shell_n', 'shell_n_sample', 'shell_n_eff',
-                    'shell_log_l_min', 'shell_log_l', 'shell_log_v',
-                    'n_update_iter', 'n_like_iter']:
+        for key in ['n_like', '_discard_exploration', 'shell_n',
+                    'shell_n_sample', 'shell_n_eff', 'shell_log_l_min',
+                    'shell_log_l', 'shell_log_v', 'n_update_iter',
+                    'n_like_iter']:
             group.attrs[key] = getattr(self, key)
 
         group['points_{}'.format(shell)].resize(self.points[shell].shape)
